@@ -182,7 +182,7 @@ func runPath(h *Harness, s *Solver, prefix []int32, opt *Options) (res pathResul
 				res.outcome = PathDone
 			} else {
 				// a feasible panic is a violation: get a witness
-				v := Violation{Label: "no-panic", Tag: strings.Join(ps.Tags, ","), Kind: "panic", Detail: res.detail, Choices: toInts(ps.Trace)}
+				v := Violation{Label: "no-panic", Tag: ps.tagString(), Kind: "panic", Detail: res.detail, Choices: toInts(ps.Trace)}
 				func() {
 					defer func() {
 						if rr := recover(); rr != nil {
